@@ -48,6 +48,9 @@ fn check(ctx: &mut Ctx, cx: &Cx, name: &str, r: Result<Obs, String>, e: Expect) 
                 if matches!(e, Expect::Null | Expect::NullTag(_)) {
                     ctx.count(&format!("null.{name}"));
                 } else {
+                    if cx.x.len() > 3 {
+                        ctx.sample(|| format!("{} = {:?}, definition gives {}", cx.d(name), o, e.describe()));
+                    }
                     ctx.distinct(&format!("{name}|{}|{}|{}", cx.label, cx.x.len().min(30), cx.mp));
                     if let Some(r) = e.ratio(o) {
                         ctx.maximum(&format!("err_over_bound.{name}"), r, || format!("len={}", cx.x.len()));
